@@ -177,8 +177,10 @@ def bundled():
 
 
 FIXED = {
-    "P-leak": {"text": P_LEAK, "calls": P_LEAK_CALLS, "deep": P_LEAK_DEEP},
-    "P-leak2": {"text": P_LEAK2, "calls": P_LEAK2_CALLS, "deep": [("v", "<" * 80 + "y" + ">" * 80), ("first", "1" * 120)]},
+    # "overflow": inputs nested far beyond the interpreter's recursion budget -- the isolated
+    # reference is RecursionError, and stays so whatever happened before
+    "P-leak": {"text": P_LEAK, "calls": P_LEAK_CALLS, "deep": P_LEAK_DEEP, "overflow": [("v", deep(700, "(", ")")), ("at", deep(700)), ("np", deep(700))]},
+    "P-leak2": {"text": P_LEAK2, "calls": P_LEAK2_CALLS, "deep": [("v", "<" * 80 + "y" + ">" * 80), ("first", "1" * 120)], "overflow": [("v", "<" * 700 + "y" + ">" * 700), ("first", "1" * 1500)]},
     "P-builtin": {"text": P_BUILTIN, "calls": P_BUILTIN_CALLS},
     "P-builtin2": {"text": P_BUILTIN2, "calls": P_BUILTIN2_CALLS},
     "P-twin1": {"text": P_TWIN1, "calls": P_TWIN1_CALLS},
